@@ -258,6 +258,11 @@ func (ft *funcTrans) call(in ssa.CallInstruction, val *ssa.Call) {
 	pre := st.clone()
 	ecPre := &evalCtx{w: w, pkg: pkg, env: env, st: pre, old: pre, lets: c.Lets, opaque: opaqueByName, ft: ft}
 	for i, r := range c.Requires {
+		if (c.Mode == "bv") != w.BV && !c.Trusted {
+			// contract written for the other integer mode: only its frame is used here
+			w.assumptions["preconditions of "+name+" not checked here (contract is in "+c.Mode+" mode)"] = true
+			break
+		}
 		t := ecPre.evalBool(r.E)
 		o := ft.obligation("requires", fmt.Sprintf("call%d.%s.requires%d", ft.nCalls, shortName(name), i+1), r.Src, t.S)
 		o.Where = posStr(ft.p.SSA.Fset, in.Pos())
